@@ -275,6 +275,11 @@ def edit_worker(job):
                 occ = sum(1 for tt, _ in ed0.observed[d][:ed0.observed[d].index((t, payload))] if tt == t)
                 for name, new in byte_edits(payload, 'quick' if lite else tier) + mpint_edits(payload):
                     plan.append((t, occ, 'msg%d:%s' % (t, name), (lambda p, new=new: new)))
+                # the message number is not part of the exchange hash: the same body under another number of the
+                # method's range (a new-style group exchange request relabelled as an old-style one, ...)
+                for nn in (30, 31, 32, 33, 34):
+                    if nn != t:
+                        plan.append((t, occ, 'msg%d:type=%d' % (t, nn), (lambda p, nn=nn: bytes([nn]) + p[1:])))
         if lite:
             plan = plan[::6]
         for mtype, occ, label, fn in plan:
